@@ -14,7 +14,8 @@ unsigned long mx_entropy_calls, mx_entropy_bytes;
 static uint64_t mx_st[8] = { 1, 2, 3, 4, 5, 6, 7, 8 };
 
 static uint64_t nx(uint64_t *s) { uint64_t z = (*s += 0x9e3779b97f4a7c15ULL); z = (z ^ (z >> 30)) * 0xbf58476d1ce4e5b9ULL; z = (z ^ (z >> 27)) * 0x94d049bb133111ebULL; return z ^ (z >> 31); }
-void mx_entropy_seed(uint64_t seed) { for (int i = 0; i < 8; i++) { mx_st[i] = seed * 0x2545F4914F6CDD1DULL + (uint64_t) (i + 1) * 0x9e3779b97f4a7c15ULL; nx(&mx_st[i]); } }
+/* per-actor streams start at unrelated points of the generator's sequence (they used to be one stream shifted by one step per actor) */
+void mx_entropy_seed(uint64_t seed) { for (int i = 0; i < 8; i++) { uint64_t t = seed * 0x2545F4914F6CDD1DULL + (uint64_t) (i + 1) * 0xD1342543DE82EF95ULL; mx_st[i] = nx(&t) ^ (nx(&t) << 1); } }
 void mx_entropy_save(uint64_t out[8]) { memcpy(out, mx_st, sizeof mx_st); }
 void mx_entropy_restore(const uint64_t in[8]) { memcpy(mx_st, in, sizeof mx_st); }
 
